@@ -248,6 +248,17 @@ class TEnum(Ty):
         return _sort_cache[self.key + "#consts"][self.tags.index(tag)]
 
 
+class TOpaque(Ty):
+    """Values that are only compared for equality (hashable signatures, config values...)."""
+
+    def __init__(self, name: str):
+        self.name = name
+        self.key = f"Opaque[{name}]"
+
+    def sort(self):
+        return _dt(self.key, lambda: z3.DeclareSort(_mangle(self.name)))
+
+
 SLICE = TRec("slice", {"start": INT, "stop": INT})
 
 # mutable-class field tables:  cls name -> {field: Ty}
